@@ -912,11 +912,26 @@ fn build_client(case: &NetCase, routes: Arc<Vec<DuplexClient>>, dials: Arc<Atomi
 /// before it reads; over an in-process pipe smaller than that flight both sides block forever. This
 /// is a property of h2 over tiny pipes, not of hyperdriver, so HTTP/2 is only combined with buffers
 /// of at least 128 bytes; HTTP/1-only cases keep buffers down to one byte.
+///
+/// The same crate writes a pending control frame (SETTINGS ACK, GOAWAY, PING) before it reads the
+/// next frame. When both directions of the pipe are full at that moment (request bodies one way,
+/// response bodies the other) and each end owes a control frame - a graceful shutdown makes the
+/// server owe GOAWAY while the client still owes the SETTINGS ACK - neither end reads again: a
+/// mutual write stall inside h2, reproduced at h2=trace level (DESIGN.md 10.4). It needs both
+/// directions saturated, so with HTTP/2 the pipe always holds the smaller of the two directions'
+/// total traffic: one direction keeps its back-pressure, the stall cannot form.
 pub fn effective_buf(case: &NetCase) -> usize {
     let any_h2 = case.reqs.iter().any(|r| request_version(case, r) == http::Version::HTTP_2) || case.servers.iter().any(|s| s % 3 == 1);
     let b = case.buf.max(1) as usize;
     if any_h2 {
-        b.max(128)
+        let hdr = |id: usize, spec: &ReqSpec, dir: u8| 160 + extra_headers(id, spec.hdrs, dir).iter().map(|(n, v)| n.len() + v.len() + 8).sum::<usize>();
+        let (mut up, mut down) = (256usize, 256usize);
+        for (id, r) in case.reqs.iter().enumerate().filter(|(_, r)| request_version(case, r) == http::Version::HTTP_2) {
+            let hops = if redirect_target(case, r).is_some() { 2 } else { 1 };
+            up += hops * (hdr(id, r, 0) + 64) + r.body_len as usize + 9 * (r.body_chunks as usize + 1);
+            down += hops * (hdr(id, r, 1) + 64) + r.resp_len as usize + 9 * (r.resp_chunks as usize + 1);
+        }
+        b.max(128).max(up.min(down))
     } else {
         b
     }
